@@ -87,6 +87,18 @@ def snapshot(root):
     return snap
 
 
+def spell_args(path, toml, key):
+    """The command line for --path / --toml in one of the equivalent spellings clap accepts (long / short option,
+    separate / attached value, either order), chosen by a hash of `key` (so that a replay spells it the same way)."""
+    k = int(hashlib.sha256(json.dumps(key, sort_keys=True).encode()).hexdigest()[:8], 16)
+
+    def one(long, short, v, j):
+        return [[long, v], [short, v], [long + "=" + v], [short + v]][j % 4]
+    a = one("--path", "-p", path, k) if path else []
+    b = one("--toml", "-t", toml, k // 4) if toml else []
+    return (b + a) if (k // 16) % 2 else (a + b)
+
+
 def run_solstat(binary, cwd, args, timeout=120):
     try:
         p = subprocess.run([binary] + args, cwd=cwd, stdout=subprocess.PIPE, stderr=subprocess.PIPE,
